@@ -310,7 +310,10 @@ def oracle(case, out):
         rtol = max(BASE[ty], 100 * eps * condM)
         etol = max(BASE[ty], 1000 * eps * condM)
         Ax = Af @ np.array(x)
-        scale = np.linalg.norm(Ax) + np.linalg.norm(cf)
+        # Y_i = n_i.(t_i - s_i) is a difference of coordinates: its rounding-level scale is |n_i|.(|t_i| + |s_i|), not |Y_i|
+        # (the preconditioned overloads scale both point sets in floating point first, so the cancellation is not exact)
+        ynat = float(np.linalg.norm((np.abs(Nn) * (np.abs(Tg) + np.abs(S))).sum(axis=1)))
+        scale = np.linalg.norm(Ax) + ynat
         key_kf = "c07-svd-singular-values-below-absolute-epsilon"
         worst = max(abs(float(g[j])) / (coln[j] * scale) if coln[j] * scale > 0 else 0.0 for j in range(k))
         if worst > rtol:
@@ -319,7 +322,7 @@ def oracle(case, out):
                           % (ci, worst, rtol, [float(a) for a in x], [float(a) for a in (xs or [])], n, condM, pre, ty)))
         elif xs is not None:
             e = Af @ (np.array(x) - np.array([float(a) for a in xs]))
-            sc2 = np.linalg.norm(Af @ np.array([float(a) for a in xs])) + np.linalg.norm(cf)
+            sc2 = np.linalg.norm(Af @ np.array([float(a) for a in xs])) + ynat
             if np.linalg.norm(e) > etol * sc2 * 10:
                 fails.append((key_kf if tiny_sv else "c05-minimiser",
                               "call %d: |J(x - x*)| = %.3g > %.3g (x* exact minimiser of the linearised cost); leftovers of an earlier "
@@ -481,7 +484,7 @@ CHECK = {
                 "extraction (ExtrOcamlBasic), ocaml/numf.ml, ocaml/drv_C05.ml", "harness/C05.cpp, python oracle (fractions.Fraction) in checks/C05.py",
                 "numpy SVD used for condition numbers / recovering the generating motion"],
     "assumptions": ["theorems are over the reals; rounding is observed, not proved",
-                    "'satisfy the normal equations' is read columnwise: |J^T(Jx-Y)|_j <= max(1e-9|1e-4, 100 eps cond) |J_j| (|Jx|+|Y|), cond = "
+                    "'satisfy the normal equations' is read columnwise: |J^T(Jx-Y)|_j <= max(1e-9|1e-4, 100 eps cond) |J_j| (|Jx|+|Y|nat), |Y|nat = |sum_c |n_c|(|t_c|+|s_c|)|_2 (Y is a difference of coordinates), cond = "
                     "condition number of the normal matrix as the code solves it; calls with 1000 eps cond > 0.05 are counted, not judged",
                     "O(theta^2) is checked in the explicit form |J(x - x_true)| <= theta^2/2 sqrt(sum |s_i|^2) on exact-motion data (oracle only, not a theorem)",
                     "failures on problems whose normal matrix has a singular value below epsilon are attributed to C07's finding (same key)"],
